@@ -102,10 +102,11 @@ SHAPE_AGNOSTIC = {"uniquify", "zip-inf", "zip-self", "interleave", "prefixes", "
                   "negate", "add-inf", "flatten", "interleave-finite", "interleave-finite-first", "interleave-empty", "zip-finite", "zipmap"}
 LIST_ITEMS = {"zip-finite", "zipmap", "zipmap-lambda", "zip-inf", "zip-self", "prefixes", "windows-2", "windows-3", "chunks-3", "chunks-2", "enumerate"}
 DATA_DEPENDENT = {"filter-'", "filter-F", "filter-3", "uniquify"}
-# entries whose output items are pairwise distinct when their input items are (uniquify after them stays linear)
+# entries that are INJECTIVE on items (or on positions): their output items are pairwise distinct whenever their input
+# items are, whatever those are (uniquify after them stays linear).  Not here: square (not injective on negatives),
+# cumulative sums and `Þ∞+` (x_i + i): after `N`, `Þ∞+` yields 0, 0, 0, ... and uniquify rightly never gets a 2nd item
 DISTINCT_ITEMS = {"enumerate", "windows-2", "windows-3", "chunks-3", "chunks-2", "prefixes", "zip-inf", "zip-self", "map-ƛ", "map-M", "map-v",
-                  "map-dec", "add-1", "sub-2", "mul-3", "negate", "double", "increment", "decrement", "square", "cumulative-sums", "every-2nd",
-                  "add-inf"}
+                  "map-dec", "add-1", "sub-2", "mul-3", "negate", "double", "increment", "decrement", "every-2nd"}
 STREAM_PRESERVING = {"behead", "slice-from-3", "prepend"}  # the stream is still 1, 2, 3, ... up to a shift
 _CODE = {}
 
